@@ -43,7 +43,7 @@ func init() {
 			{Name: "concurrent-create", Variant: "plain", N: core.Tiered(60, 2000), Run: c08ConcurrentCreate, TimeoutS: 300},
 			{Name: "concurrent-race", Variant: "race", N: core.Tiered(30, 600), Run: c08ConcurrentRace, Env: []string{"GORACE=halt_on_error=1 exitcode=66"}, TimeoutS: 300},
 		},
-		RequireTags: func(string) []string { return []string{"probe:held", "probe:exclusive", "porcupine:ok", "sel:stop-beyond-extent", "sel:nil-dim", "sel:step>1"} },
+		RequireTags: func(string) []string { return []string{"probe:held", "probe:exclusive", "porcupine:ok", "sel:stop-beyond-extent", "sel:nil-dim", "sel:step>1", "blocks:zero-block"} },
 		Exhaustive:  func(string) bool { return false },
 	})
 }
@@ -219,6 +219,9 @@ func roundtrip[T Num](c *core.Ctx, io *IOBackend[T], b *Backend[T], rc rtCase) {
 		buf[i] = T(i + 1)
 		if i%3 == 0 {
 			buf[i] = T(200000 + i*7919) // values needing more than 16 bits
+		}
+		if i%5 == 1 {
+			buf[i] = extremeValue[T](rc.Type, i) // values at the far ends of the element type's range
 		}
 	}
 	rootArr := b.FromSlice(buf, cpInts(rc.Root))
@@ -472,6 +475,15 @@ func c08Blocks(c *core.Ctx) {
 		for i := range vals {
 			vals[i] = next
 			next++
+		}
+		// blocks of zeros (over cells that may already hold data) and single zeros are values like any other
+		if k > 0 && c.R.Bool(0.25) {
+			for i := range vals {
+				vals[i] = 0
+			}
+			c.Tag("blocks:zero-block")
+		} else if c.R.Bool(0.3) {
+			vals[c.R.Intn(n)] = 0
 		}
 		var src Arr[float64]
 		if o.Kind == "stepped" {
@@ -1193,4 +1205,39 @@ func c08ConcurrentCreate(c *core.Ctx) {
 		c.Inconclusive("porcupine timed out")
 	}
 	probeReport(c)
+}
+
+// extremeValue returns a value near the end of typ's range that a detour through another numeric type would not
+// preserve. int/uint keep small values: their element size on disk is a listed known finding of its own.
+func extremeValue[T Num](typ string, i int) T {
+	var i64 int64
+	var u64 uint64
+	var f float64
+	switch typ {
+	case "int64":
+		i64 = 1<<62 + int64(i)*3 + 1
+		if i%2 == 0 {
+			i64 = -(1 << 53) - int64(i) - 1
+		}
+		return T(i64)
+	case "uint64":
+		u64 = 1<<63 + uint64(i)*3 + 1
+		return T(u64)
+	case "int32":
+		i64 = 1<<30 + int64(i) + 1
+		if i%2 == 0 {
+			i64 = -(1 << 31) + int64(i)
+		}
+		return T(i64)
+	case "uint32":
+		u64 = 1<<32 - 1 - uint64(i)
+		return T(u64)
+	case "float32":
+		f = []float64{3e38, -3e38, 1e-45, 16777217, -0.5}[i%5]
+		return T(f)
+	case "float64":
+		f = []float64{1.7e308, -1.7e308, 5e-324, 9007199254740993, -0.5}[i%5]
+		return T(f)
+	}
+	return T(i + 1)
 }
